@@ -51,25 +51,33 @@ def _is_self_attr(node, attr):
 
 
 def _analyse(fn, attr, problems, where):
-    """number of accumulate statements for self.<attr> in function fn (loops are not multiplied here),
-    plus whether the statement sits inside a for loop."""
+    """number of accumulate statements for self.<attr> at the TOP LEVEL of the body of fn.
+    Any write to self.<attr> nested inside if/for/while/try/with is reported as a problem (fail closed):
+    a conditional or repeated accumulation is outside the model."""
     count = 0
+    top = set(id(n) for n in fn.body)
     for node in ast.walk(fn):
+        hit = False
         if isinstance(node, ast.Assign):
             for tg in node.targets:
                 if _is_self_attr(tg, attr):
                     v = node.value
                     if (isinstance(v, ast.BinOp) and isinstance(v.op, ast.Add) and
                             (_is_self_attr(v.left, attr) or _is_self_attr(v.right, attr))):
-                        count += 1
+                        hit = True
                     else:
                         problems.append('%s|%s: unrecognised assignment to self.%s' % (GEN, where, attr))
         elif isinstance(node, ast.AugAssign):
             if _is_self_attr(node.target, attr):
                 if isinstance(node.op, ast.Add):
-                    count += 1
+                    hit = True
                 else:
                     problems.append('%s|%s: unrecognised augmented assignment to self.%s' % (GEN, where, attr))
+        if hit:
+            if id(node) in top:
+                count += 1
+            else:
+                problems.append('%s|%s: accumulation of self.%s is nested inside a compound statement' % (GEN, where, attr))
     return count
 
 
